@@ -237,6 +237,8 @@ type c12Detail struct {
 	NftRules []string `json:",omitempty"`
 	BPFRules string   `json:",omitempty"`
 	Error    string   `json:",omitempty"`
+	// level D replays
+	IPSetHistory *c12SetHistory `json:",omitempty"`
 }
 
 type c12Worker struct {
@@ -938,6 +940,7 @@ func TestVerif_C12(t *testing.T) {
 		}
 		c.Rule("states = endpoint policy states (IP sets + policies + profiles + workload endpoint as the calculation graph's proto messages) x direction x IP version, each built on the four real implementations; " +
 			ruleA + ruleB + ruleC +
+			fmt.Sprintf("level D (app-policy's stateful policystore): every history IPSetUpdate(S0) for every subset S0 of a 6-member NET pool (a /24, a /25 and a /31 inside it, two /32s in the same /24, one /32 outside; IPv4 and the IPv6 analogue) followed by every sequence of further events from {delta add m, delta remove m, IPSetUpdate(empty), IPSetUpdate(pool)} up to %d events in total, replayed into a fresh real store through ProcessUpdate; after the last step 13 boundary membership probes and 3 'allow from set' verdicts are compared with a reference set and with fresh stores given the final contents in one update (members ascending / descending); ", c.Pick(3, 4)) +
 			"transitions = executions of one packet on one implementation (netfilter twice: clean mark / garbage mark); non-trivial = states for which both an allowed and a denied packet were observed")
 		c.Assume("iptables/nftables verdict = what the rendered workload endpoint chain (cali-tw-/cali-fw-<iface>) does to a NEW-connection packet, for two initial marks (clean / garbage in the accept, pass and scratch bits); kernel IP sets are abstract membership tags computed from the set contents")
 		c.Assume("BPF verdict = allow/deny tail call taken by the policy program (+ pol_rc), the rest of the BPF C dataplane is not involved; IP sets are real LPM-trie entries written with the real encoders")
@@ -948,6 +951,14 @@ func TestVerif_C12(t *testing.T) {
 			var d c12Detail
 			if err := vk.LoadReplay(rf, &d); err != nil {
 				c.ToolError("replay: " + err.Error())
+				return
+			}
+			if d.IPSetHistory != nil {
+				var st c12HistStats
+				c12RunHistory(c, c12HistDomain(d.IPSetHistory.IPV), d.IPSetHistory, &st, true)
+				c.Add("states", 1)
+				c.Add("transitions", st.steps+st.probes+st.verdicts)
+				c.Sample(map[string]any{"history": d.IPSetHistory.sig()})
 				return
 			}
 			w, err := k.newWorker()
@@ -968,7 +979,10 @@ func TestVerif_C12(t *testing.T) {
 
 		levels := os.Getenv("VERIF_C12_LEVELS")
 		if levels == "" {
-			levels = "ABC"
+			levels = "ABCD"
+		}
+		if strings.Contains(levels, "D") {
+			k.levelD()
 		}
 		if strings.Contains(levels, "A") {
 			k.parallel("A:rule-features", k.levelA)
